@@ -71,7 +71,13 @@ type pendingTimer struct {
 
 type failTap struct{ n *Node }
 
+// cslog: debugging aid, VERIF_CSLOG=<node id> prints that node's consensus log
+var cslog = os.Getenv("VERIF_CSLOG")
+
 func (h failTap) Log(r *log.Record) error {
+	if cslog != "" && cslog == h.n.id && r.Lvl <= log.LvlInfo {
+		fmt.Fprintf(os.Stderr, "CSLOG t=%dms %s %.300s\n", h.n.cl.now.Milliseconds(), r.Msg, fmt.Sprint(r.Ctx...))
+	}
 	if strings.HasPrefix(r.Msg, "Evidence FaultVal") || strings.HasPrefix(r.Msg, "Evidence proposer error") || strings.HasPrefix(r.Msg, "Evidence round/height error") {
 		h.n.fveRejected = r.Msg + " " + fmt.Sprint(r.Ctx...)
 	}
